@@ -41,7 +41,7 @@ def main():
     name = sys.argv[3] if len(sys.argv) > 3 else pid
     patch = os.path.join(seed, "patch.diff")
     meta = {"property": pid, "source": "independent sub-agent given only the property text and a scratch worktree", "ran": []}
-    tgt = os.path.join(V, ".cache", "target-seed")
+    tgt = os.environ.get("SSL_SEED_TARGET") or os.path.join(V, ".cache", "target-seed")
     env = dict(os.environ, CARGO_TARGET_DIR=tgt, CARGO_NET_OFFLINE="true")
     clean = copy_repo()
     mut = copy_repo()
